@@ -205,6 +205,9 @@ def ast_walk_terms(t):
 
 
 # ----------------------------------------------------------------------------- helper shapes
+LOWERED = {}  # function key -> the matcher compares lower-cased text on both sides
+
+
 def matcher_shape(fi):
     """('det'|'match', 'prefix'|'suffix', string_param_index, list_param_index) or None."""
     body = [s for s in fi.node.body if not (isinstance(s, ast.Expr) and isinstance(s.value, ast.Constant))]
@@ -256,9 +259,11 @@ def matcher_shape(fi):
     si, li = fi.params.index(sname), fi.params.index(loop.iter.id)
     if isinstance(rv, ast.Constant) and rv.value is True:
         if len(rest) == 1 and isinstance(rest[0], ast.Return) and isinstance(rest[0].value, ast.Constant) and rest[0].value.value is False:
+            LOWERED[fi.key] = s_lowered
             return ("det", where, si, li)
         return None
     if isinstance(rv, ast.Name) and rv.id == loop.target.id and not rest:
+        LOWERED[fi.key] = s_lowered
         return ("match", where, si, li)
     return None
 
@@ -472,3 +477,16 @@ def prove_case_function(prover, fi):
         else:
             res.append((False, "expected value `%s` is not a recognised expression" % norm(e)))
     return res
+
+
+def case_transform(fi):
+    """For a case function  expected = prefix + <g>(word) + suffix : returns 'lower', 'upper', 'identity' or None."""
+    kinds = set()
+    for n in walk_function(fi.node):
+        if isinstance(n, ast.Assign) and len(n.targets) == 1 and isinstance(n.targets[0], ast.Name) and n.targets[0].id.startswith("sExpected"):
+            calls = [x for x in ast.walk(n.value) if isinstance(x, ast.Call) and isinstance(x.func, ast.Attribute) and x.func.attr in ("lower", "upper", "title", "capitalize", "swapcase")]
+            if not calls:
+                kinds.add("identity")
+            for c in calls:
+                kinds.add(c.func.attr)
+    return kinds
